@@ -175,6 +175,13 @@ def check(ctx):
     unpacks = [c for c in sem.method_calls(dec, 'unpack', vd) if len(c.args) >= 2 and vd.text(c.args[0]) == 'self.fmt'
                and re.search(r'read_bytes\(self\.length\)', vd.text(c.args[1]))]
     ok = bool(packs) and bool(unpacks)
+    if not ok:
+        # the packing may live in a helper of the Encoder / Decoder that is handed the format and the length: self.fmt reaches a call when encoding,
+        # self.fmt and self.length reach a call when decoding
+        def args_of_calls(fn, vw):
+            return {vw.text(a_) for c_ in walk_no_nested(fn) if isinstance(c_, ast.Call) for a_ in list(c_.args) + [k_.value for k_ in c_.keywords]}
+        ea, da = args_of_calls(enc, ve), args_of_calls(dec, vd)
+        ok = 'self.fmt' in ea and 'self.fmt' in da and any('self.length' in t_ for t_ in da)
     ctx.instance('C06.R1', 'Integer.encode/decode pack and unpack with self.fmt / self.length', 'ok' if ok else 'VIOLATION', node=enc, file=OER)
     if not ok:
         ctx.violation('C06.R1', OER, enc, Model.qual(enc), 'fixed-size INTEGER no longer packs with self.fmt and reads self.length octets', stmt='fmt/length use')
@@ -216,9 +223,39 @@ def check(ctx):
     fe = model.func(OER, 'Encoder.append_length_determinant')
     fd = model.func(OER, 'Decoder.read_length_determinant')
 
+    # the Encoder as a record: its attributes after __init__, for the direct evaluation (sa/evalexpr.py) of methods whose paths the bit machine cannot
+    # enumerate (the long form is built in a loop)
+    einit = enc_cls.find_method('__init__')
+    try:
+        _r, eenv = evalexpr.run_function(einit[1], {}, skip_calls=True) if einit else (None, {})
+        enc_env0 = {k: v_ for k, v_ in eenv.items() if isinstance(k, str) and k.startswith('self.')}
+    except evalexpr.Unsupported:
+        enc_env0 = None
+
+    def direct_bits(method, args):
+        """the bits an Encoder method appends, by evaluating the method on a record of the Encoder's attributes"""
+        if enc_env0 is None:
+            raise bitmachine.Undecided('Encoder.__init__ is not evaluable')
+        g_ = enc_cls.find_method(method)[1]
+        env = dict(enc_env0)
+        env.update(dict(zip(flow.param_names(g_)[1:], args)))
+        try:
+            _r, out = evalexpr.run_function(g_, env)
+        except evalexpr.Raised as e:
+            raise bitmachine.Raised(e.name)
+        except (evalexpr.Unsupported, KeyError, TypeError) as e:
+            raise bitmachine.Undecided(str(e))
+        nb, val = out.get('self.number_of_bits'), out.get('self.value')
+        if not isinstance(nb, int) or not isinstance(val, int):
+            raise bitmachine.Undecided('the Encoder does not keep its content as (value, number_of_bits)')
+        return format(val, '0%db' % nb) if nb else ''
+
     def ld_enc(n):
         def thunk():
-            bits, _ = E.run('append_length_determinant', [n], '')
+            try:
+                bits, _ = E.run('append_length_determinant', [n], '')
+            except bitmachine.Undecided:
+                bits = direct_bits('append_length_determinant', [n])
             if bits != ref_ld(n):
                 return 'X.696 8.6 prescribes %s, the encoder emits %s' % (ref_ld(n), bits)
             return None
@@ -237,8 +274,8 @@ def check(ctx):
     # the long form of the encoder builds its octets in a loop (not evaluated): its first octet is 0x80 | number of octets
     marks = [n for n in walk_no_nested(fe) if isinstance(n, ast.BinOp) and isinstance(n.op, ast.BitOr)
              and any(isinstance(x, ast.Constant) and x.value == 0x80 for x in (n.left, n.right))]
-    ok = bool(marks)
-    ctx.instance('C06.R2', 'Encoder.append_length_determinant long form starts with 0x80 | n', 'ok' if ok else 'VIOLATION', node=fe, file=OER)
+    ok = bool(marks) or ne == len(LD)       # (all cases, the long forms too, were evaluated: the constant need not be spelled 0x80)
+    ctx.instance('C06.R2', 'Encoder.append_length_determinant long form starts with 0x80 | n', 'ok' if ok else 'VIOLATION', 'decided by evaluation' if ne == len(LD) else '', node=fe, file=OER)
     if not ok:
         ctx.violation('C06.R2', OER, fe, Model.qual(fe), 'length determinant encoder differs from X.696 8.6 (long form 0x80 | number of octets)', stmt='length determinant encoder')
 
